@@ -232,8 +232,35 @@ def observations(chk, seed, n):
                     chk.violation("C05/obs/raise", "CG(%s) raised %s: %s" % (label, type(e).__name__, str(e)[:150]), case)
 
 
+def multigrid_interpolation(chk, thorough):
+    """growth beyond the listed clauses: the interpolation operator of GeometricMultigrid against Multigrid.tla"""
+    import pymoto as pym
+    grids = [dict(nx=2, ny=2, nz=0), dict(nx=4, ny=2, nz=0), dict(nx=2, ny=4, nz=0), dict(nx=2, ny=2, nz=2)] + \
+            ([dict(nx=4, ny=4, nz=0), dict(nx=6, ny=2, nz=0), dict(nx=4, ny=2, nz=2)] if thorough else [])
+    name, mod, cfg = tlc.mc("Multigrid", dict(MGGrids=tlc.SetOf(grids), Variant="faithful"), invariants=["PartitionOfUnity", "AffineExact", "Injection", "Emit"])
+    r = chk.tlc_must_hold(name, cfg, label="Multigrid interpolation", extra_modules={name: mod}, workers=1)
+    for tag, v in r.printed:
+        if tag != "MG":
+            continue
+        g = v[0]["grid"]
+        dom = pym.DomainDefinition(g["nx"], g["ny"], g["nz"])
+        for ndof in (1, 2):
+            n = ndof * dom.nnodes
+            mg = pym.solvers.GeometricMultigrid(dom)
+            mg.setup_interpolation(sps.identity(n, format="csc"))
+            R = mg.R.toarray()
+            nc = R.shape[1] // ndof
+            exp = np.zeros((n, nc * ndof))
+            for f, c, w in v[0]["entries"]:
+                for d in range(ndof):
+                    exp[f * ndof + d, c * ndof + d] += w[0] / w[1]
+            chk.case({"multigrid": g, "ndof": ndof})
+            if R.shape != exp.shape or not np.array_equal(R, exp):
+                chk.violation("C05/multigrid/interpolation", "grid %s ndof %d: interpolation operator differs from the specification" % (g, ndof), {"grid": g, "ndof": ndof})
+
+
 def run(chk, replay=None):
-    if replay is not None:
+    if replay is not None and "multigrid" not in str(replay):
         res = check_matrix(replay)
         chk.case({"A": replay["A"]})
         if res:
@@ -267,4 +294,5 @@ def run(chk, replay=None):
                     chk.case({"A": c["A"]}, nontrivial=not c["cls"]["diag"])
                     if res:
                         chk.violation("C05/" + res[0], res[1], c)
+    multigrid_interpolation(chk, thorough)
     observations(chk, chk.seed + 2, 12 if thorough else 4)
